@@ -19,7 +19,7 @@ COEF_TOL = 1e-4   # unchanged code: ≤ ~1e-5 (nodes at distance ≥ r·sin(π/M
 def run_child(mode, seed, names):
     env = dict(os.environ)
     env.pop("JAX_ENABLE_X64", None)
-    env["VERIF_C19_F32"] = "0" if mode == "x64" else "1"
+    env["VERIF_C19_F32"] = "0" if mode == "x64" else "1"   # "switch": stays in default precision until the child switches itself
     p = subprocess.run([sys.executable, os.path.join(HERE, "c19_child.py"), mode, str(seed), ",".join(names)],
                        capture_output=True, text=True, env=env, timeout=1800)
     for line in p.stdout.splitlines():
@@ -81,6 +81,16 @@ def probe_sessions(seed, names):
                     bad.append(f"coefficient sweep ETDRK{order}{k} at z={f64['sweep']['z'][zi]}: single {c32} vs double {c64} "
                                f"differ by {d:.2e} (> {COEF_TOL:g}): the contour passes too close to the removable singularity")
                 # the double-precision value against the exact phi-combination is the C02 check's business
+    # the double-precision session entered AFTER a single-precision one in the same process: same criteria
+    sw = run_child("switch", seed, names)
+    for name, r in sw.get("exact", {}).items():
+        if r["err"] > 1e-11 * r["scale"] + r["rounding_allowance"]:
+            bad.append(f"{name}[after a default session in the same process]: the x64-session step is off the closed-form solution by {r['err']:.3e} (scale {r['scale']:.3e}, D={r['D']}, N={r['N']}) — "
+                       f"far above double rounding ({1e-11 * r['scale'] + r['rounding_allowance']:.1e}): state left behind by the single-precision session leaks into the double-precision one")
+    for name in list(names) + ["Wave"]:
+        b = sw["steppers"][name]
+        if b["out_dtype"] != "float64" or any(dt not in ("float64", "complex128") for dt in b["leaf_dtypes"]):
+            bad.append(f"{name}[after a default session in the same process]: output dtype {b['out_dtype']}, leaves {b['leaf_dtypes']} in the x64 session")
     for name, r in f64.get("exact", {}).items():
         if r["err"] > 1e-11 * r["scale"] + r["rounding_allowance"]:
             bad.append(f"{name}: the x64-session step is off the closed-form solution by {r['err']:.3e} (scale {r['scale']:.3e}, D={r['D']}, N={r['N']}) — "
